@@ -2,12 +2,13 @@
 from pyvc.spec import assumed, contract, fields, spec, implies, forall, exists  # noqa: F401
 from contracts.assumed_docutils import GP_ENS, GP_MOD, GP_TEXT  # noqa: F401
 import contracts.sections  # noqa: F401  (create_warning as a log record)
+import contracts.registry  # noqa: F401  (names / nameids / note_explicit_target)
 from contracts.render import KEEP, NEW, REQ, RMOD, M  # noqa: F401
 
 # docutils' footnote registries, as lists in registration order (note_* append); nameids by key presence
 fields("docutils.nodes:Document", footnotes="list[Element]", autofootnotes="list[Element]", footnote_refs="list[Element]",
-       autofootnote_refs="list[Element]", nameids="list[str]")  # (the registered names, in registration order)
-fields("docutils.nodes:Element", names="list[str]", auto="bool", refname="str | None")
+       autofootnote_refs="list[Element]")
+fields("docutils.nodes:Element", auto="bool", refname="str | None")
 fields("markdown_it.tree:SyntaxTreeNode", meta="dict[str, str]")
 
 for _k, _params in (("footnote", []), ("label", ["rawsource", "text"]), ("footnote_reference", ["rawsource"])):
@@ -28,16 +29,6 @@ contract(
 )
 assumed("Element.__iadd__", "node += child is node.append(child)", "docutils.nodes")
 contract(
-    "ext:Element.__getitem__",
-    types={"__params__": ["self", "key"], "self": "Element", "key": "str"},
-    requires=["key == 'names'"], ensures=["result == self.names"], returns="list[str]", modifies=[], pure=True, trusted=True,
-)
-contract(
-    "ext:Element.__item_append__",
-    types={"__params__": ["self", "key", "value"], "self": "Element", "key": "str", "value": "str"},
-    requires=["key == 'names'"], ensures=["self.names == old(self.names) + [value]"], returns="None", modifies=["self.names"], trusted=True,
-)
-contract(
     "ext:Element.__setitem__",
     types={"__params__": ["self", "key", "value"], "self": "Element", "key": "str"},
     requires=["key == 'auto' or key == 'refname'"],
@@ -54,16 +45,6 @@ for _m, _f in (("note_footnote", "footnotes"), ("note_autofootnote", "autofootno
         types={"__params__": ["self", "node"], "self": "Document", "node": "Element"},
         requires=[], ensures=[f"self.{_f} == old(self.{_f}) + [node]"], returns="None", modifies=[f"self.{_f}"], trusted=True,
     )
-contract(
-    "ext:Document.note_explicit_target",
-    types={"__params__": ["self", "target", "msgnode"], "self": "Document", "target": "Element", "msgnode": "Element"},
-    requires=[],
-    # registers the target's names (a clash makes docutils report and rename - either way earlier names stay registered)
-    ensures=["forall(0, len(target.names), lambda i: target.names[i] in self.nameids)",
-             "implies(len(target.names) == 1, target.names[0] in self.nameids)",
-             "self.nameids[: len(old(self.nameids))] == old(self.nameids)"],
-    returns="None", modifies=["self.nameids", "Document.log"], trusted=True,
-)
 assumed("docutils footnote registries", "note_footnote / note_autofootnote / note_footnote_ref / note_autofootnote_ref append the node to the "
         "corresponding registry; note_explicit_target registers the node's names in nameids", "docutils.nodes")
 
